@@ -20,7 +20,9 @@ Every function with a case analysis also returns a branch id (a small `Nat`):
 * `baryLine`           0 degenerate/a nearer, 1 degenerate/b nearer, 2 regular
 * `closestPointLine`   0,1 as above, 2 regular→a, 3 regular→b, 4 regular→interior
 * `closestPointTriangle` 0 A, 1 B, 2 AB, 3 C, 4 AC, 5 BC, 6 face,
-                         7/8/9 degenerate (collinear) fallback won by edge AB/AC/BC
+                         7/8/9 degenerate (sliver / collinear) fallback won by edge AB/AC/BC;
+                         the degeneracy test is the relative one of repair ea3a5ff
+                         (`closestPointTriangle_asIs_before_fix` keeps the old absolute test)
 * `originOutsideOfTetrahedronPlanes` 0 all `signd > 0`, 1 all `signd < 0`, 2 mixed
 * `closestPointTetrahedron` `64·winner + 16·orientation + flags` (flags: bit i = face i
   tested; faces in the order ABC, ACD, ADB, BDC; winner 0 = no face taken (origin inside),
@@ -166,53 +168,76 @@ def closestPointTriangleDegenerate (a b c : V3 α) : Except Err (CP α) := do
   if distSq < bestDistSq then .ok ⟨q.pt, q.set <<< 1, 9⟩
   else .ok ⟨closestPoint, closestSet, win⟩
 
-/-- `closest_point_triangle(a, b, c)` -/
-def closestPointTriangle (a b c : V3 α) : Except Err (CP α) :=
+/-- `max_edge_len_sq = max(ab.dot(ab), max(ac.dot(ac), bc.dot(bc)))` -/
+def maxEdgeLenSq (a b c : V3 α) : α :=
   let ab := b - a
   let ac := c - a
   let bc := c - b
+  max (V3.dot ab ab) (max (V3.dot ac ac) (V3.dot bc bc))
+
+/-- the Voronoi-region cascade of `closest_point_triangle` (everything after the degeneracy
+test); `n` is the normal computed before the test -/
+def closestPointTriangleRegions (a b c n : V3 α) : Except Err (CP α) :=
+  let ab := b - a
+  let ac := c - a
+  let bc := c - b
+  let nLenSq := V3.dot n n
+  -- vertex region A
+  let ap := -a
+  let d1 := V3.dot ab ap
+  let d2 := V3.dot ac ap
+  if d1 ≤ 0 ∧ d2 ≤ 0 then .ok ⟨a, 0b0001, 0⟩ else
+  -- vertex region B
+  let bp := -b
+  let d3 := V3.dot ab bp
+  let d4 := V3.dot ac bp
+  if 0 ≤ d3 ∧ d4 ≤ d3 then .ok ⟨b, 0b0010, 1⟩ else
+  -- edge region AB
+  let vc := d1 * d4 - d3 * d2
+  if vc ≤ 0 ∧ 0 ≤ d1 ∧ d3 ≤ 0 then do
+    let v ← cdiv d1 (d1 - d3)
+    .ok ⟨a + v * ab, 0b0011, 2⟩
+  else
+  -- vertex region C
+  let cp := -c
+  let d5 := V3.dot ab cp
+  let d6 := V3.dot ac cp
+  if 0 ≤ d6 ∧ d5 ≤ d6 then .ok ⟨c, 0b0100, 3⟩ else
+  -- edge region AC
+  let vb := d5 * d2 - d1 * d6
+  if vb ≤ 0 ∧ 0 ≤ d2 ∧ d6 ≤ 0 then do
+    let w ← cdiv d2 (d2 - d6)
+    .ok ⟨a + w * ac, 0b0101, 4⟩
+  else
+  -- edge region BC
+  let va := d3 * d6 - d5 * d4
+  let d4_d3 := d4 - d3
+  let d5_d6 := d5 - d6
+  if va ≤ 0 ∧ 0 ≤ d4_d3 ∧ 0 ≤ d5_d6 then do
+    let w ← cdiv d4_d3 (d4_d3 + d5_d6)
+    .ok ⟨b + w * bc, 0b0110, 5⟩
+  else do
+    -- face region: `n * (a + b + c).dot(n) / (3.0 * n_len_sq)`
+    let p ← cdivV (V3.dot (a + b + c) n * n) (3.0 * nLenSq)
+    .ok ⟨p, 0b0111, 6⟩
+
+/-- `closest_point_triangle(a, b, c)` (after repair ea3a5ff): degenerate iff
+`n_len_sq <= EPSILON * max_edge_len_sq * max_edge_len_sq`, i.e. the altitude over the longest
+edge is at most `sqrt(EPSILON)` times that edge (covers duplicate / almost duplicate points) -/
+def closestPointTriangle (a b c : V3 α) : Except Err (CP α) :=
+  let n := triNormal a b c
+  let nLenSq := V3.dot n n
+  let maxEdge := maxEdgeLenSq a b c
+  if nLenSq ≤ EPS * maxEdge * maxEdge then closestPointTriangleDegenerate a b c
+  else closestPointTriangleRegions a b c n
+
+/-- `closest_point_triangle` as it was before repair ea3a5ff: absolute test
+`n_len_sq < EPSILON_SQR` -/
+def closestPointTriangle_asIs_before_fix (a b c : V3 α) : Except Err (CP α) :=
   let n := triNormal a b c
   let nLenSq := V3.dot n n
   if nLenSq < EPS2 then closestPointTriangleDegenerate a b c
-  else
-    -- vertex region A
-    let ap := -a
-    let d1 := V3.dot ab ap
-    let d2 := V3.dot ac ap
-    if d1 ≤ 0 ∧ d2 ≤ 0 then .ok ⟨a, 0b0001, 0⟩ else
-    -- vertex region B
-    let bp := -b
-    let d3 := V3.dot ab bp
-    let d4 := V3.dot ac bp
-    if 0 ≤ d3 ∧ d4 ≤ d3 then .ok ⟨b, 0b0010, 1⟩ else
-    -- edge region AB
-    let vc := d1 * d4 - d3 * d2
-    if vc ≤ 0 ∧ 0 ≤ d1 ∧ d3 ≤ 0 then do
-      let v ← cdiv d1 (d1 - d3)
-      .ok ⟨a + v * ab, 0b0011, 2⟩
-    else
-    -- vertex region C
-    let cp := -c
-    let d5 := V3.dot ab cp
-    let d6 := V3.dot ac cp
-    if 0 ≤ d6 ∧ d5 ≤ d6 then .ok ⟨c, 0b0100, 3⟩ else
-    -- edge region AC
-    let vb := d5 * d2 - d1 * d6
-    if vb ≤ 0 ∧ 0 ≤ d2 ∧ d6 ≤ 0 then do
-      let w ← cdiv d2 (d2 - d6)
-      .ok ⟨a + w * ac, 0b0101, 4⟩
-    else
-    -- edge region BC
-    let va := d3 * d6 - d5 * d4
-    let d4_d3 := d4 - d3
-    let d5_d6 := d5 - d6
-    if va ≤ 0 ∧ 0 ≤ d4_d3 ∧ 0 ≤ d5_d6 then do
-      let w ← cdiv d4_d3 (d4_d3 + d5_d6)
-      .ok ⟨b + w * bc, 0b0110, 5⟩
-    else do
-      -- face region: `n * (a + b + c).dot(n) / (3.0 * n_len_sq)`
-      let p ← cdivV (V3.dot (a + b + c) n * n) (3.0 * nLenSq)
-      .ok ⟨p, 0b0111, 6⟩
+  else closestPointTriangleRegions a b c n
 
 /-- `origin_outside_of_tetrahedron_planes(a, b, c, d)` → four flags (faces ABC, ACD, ADB, BDC)
 and the orientation branch (0: all `signd > 0`, 1: all `signd < 0`, 2: mixed → `ALL_TRUE`) -/
